@@ -133,6 +133,9 @@ func GenPair(t *rapid.T, o GenOpts) (c, s EP, m Meta) {
 		c.RootCA, c.ServerName = 1, ServerName
 		if rapid.IntRange(0, 5).Draw(t, "noverify") == 0 {
 			c.RootCA, c.ServerName, c.NoVerify = 0, "", true
+			if rapid.Bool().Draw(t, "noverifysni") {
+				c.ServerName = ServerName // still names the server it wants
+			}
 		}
 	}
 	// cipher suites: explicit lists on either side, or defaults
@@ -221,6 +224,19 @@ func GenPair(t *rapid.T, o GenOpts) (c, s EP, m Meta) {
 			}
 		}
 		c.Cert = cc
+		if cc != "" && rapid.IntRange(0, 2).Draw(t, "ccertcb") == 0 {
+			c.CertCallback = true
+		}
+		if s.ClientCAs && rapid.Bool().Draw(t, "ccasmulti") {
+			s.ClientCAsMulti = true
+		}
+	}
+	// several server certificates: a decoy for another name in front, the requested name (sent in another
+	// letter case than the certificate spells it) selects the right one
+	// (the server filters its suite list by the key type of its first certificate, so the decoy has the family's type)
+	if s.Cert != "" && m.Family != "rsa" && c.ServerName != "" && rapid.IntRange(0, 3).Draw(t, "smulti") == 0 {
+		s.CertsBefore = []string{"wrongname"}
+		c.ServerName = rapid.SampledFrom([]string{ServerName, "Server.Test", "SERVER.TEST", "server.TEST"}).Draw(t, "snicase")
 	}
 	// connection ids
 	cidv := []int{0, 0, 0, -1, 1000, 1, 4, 8}
